@@ -524,6 +524,64 @@ fn run_conversions(ctx: &Ctx) {
     ctx.mark_nontrivial(H::new().str("conversions").get());
 }
 
+/// An `avar` table that is present but does not parse must make `variations::instance` fail: carrying on without it
+/// silently normalises with the default rule only, i.e. to other coordinates than the font prescribes. Every way of making
+/// the fixture's avar unparsable from a small menu (major version, truncation inside the header / inside every segment map,
+/// a position-map count that runs past the table) x user tuples where the maps matter.
+fn run_unparsable_avar(ctx: &Ctx) {
+    use allsorts::font_data::FontData;
+    let data = crate::util::fixture("fonts/opentype/NotoSans-VF.abc.ttf");
+    let Some(f) = otmodel::sfnt::parse(&data) else { return };
+    let Some(avar) = f.table(otmodel::tag(b"avar")) else { return };
+    let mut variants: Vec<(String, Vec<u8>)> = Vec::new();
+    for v in [0u16, 2, 0xFFFF] {
+        let mut a = avar.to_vec();
+        a[0..2].copy_from_slice(&v.to_be_bytes());
+        variants.push((format!("majorVersion {}", v), a));
+    }
+    for cut in [1usize, 2, 3, 5, 7, 9] {
+        if avar.len() > cut {
+            variants.push((format!("last {} bytes missing", cut), avar[..avar.len() - cut].to_vec()));
+        }
+    }
+    for keep in [0usize, 4, 7, 8, 10] {
+        if avar.len() > keep {
+            variants.push((format!("only the first {} bytes", keep), avar[..keep].to_vec()));
+        }
+    }
+    {
+        let mut a = avar.to_vec();
+        a[8..10].copy_from_slice(&0x7FFFu16.to_be_bytes()); // positionMapCount of the first segment map
+        variants.push(("first positionMapCount 0x7FFF".into(), a));
+    }
+    let users: [[i32; 3]; 3] = [[250 << 16, 80 << 16, 50 << 16], [900 << 16, 62 << 16 | 0x8000, 0], [100 << 16, 100 << 16, 100 << 16]];
+    let mut n = 0u64;
+    for (what, bad) in &variants {
+        // does allsorts' own reader reject this table? (only then is the instance required to fail)
+        let rejected = guard(|| ReadScope::new(bad).read::<AvarTable<'_>>().is_err()).unwrap_or(true);
+        let tables: Vec<(u32, Vec<u8>)> = f.dir.iter().map(|e| (e.tag, if e.tag == otmodel::tag(b"avar") { bad.clone() } else { f.table(e.tag).unwrap_or(&[]).to_vec() })).collect();
+        let font = otmodel::sfnt::build_with(otmodel::sfnt::TTF, &tables, &otmodel::sfnt::BuildOpts { fix_head_adjustment: true, ..Default::default() });
+        for u in &users {
+            n += 1;
+            let user: Vec<Fixed> = u.iter().map(|x| Fixed::from_raw(*x)).collect();
+            let r = guard(|| {
+                let fd = ReadScope::new(&font).read::<FontData<'_>>().map_err(|e| format!("{:?}", e))?;
+                let p = fd.table_provider(0).map_err(|e| format!("{:?}", e))?;
+                allsorts::variations::instance(&p, &user).map(|(_, t)| format!("{:?}", t)).map_err(|e| format!("{:?}", e))
+            });
+            match r {
+                Err(p) => ctx.violation(&format!("C13:panic:{}", p.site_key("/repo")), || json!({"avar": what, "user_16.16": u, "panic": p.msg})),
+                Ok(Ok(t)) if rejected => ctx.violation("C13:instance:unparsable-avar-ignored", || json!({"avar": what, "user_16.16": u, "instance_succeeded_at_tuple": t, "note": "AvarTable::read rejects this table, so the instance cannot have applied the font's segment maps"})),
+                _ => {}
+            }
+        }
+    }
+    ctx.evals(n);
+    ctx.add_states(n);
+    ctx.add_transitions(n);
+    ctx.set("unparsable_avar_cases", json!(n));
+}
+
 pub fn run(ctx: &Ctx) {
     ctx.set_rule(
         "case = (axis triple min<=def<=max from an 11-value landmark menu incl. degenerate and extreme values) x (no avar | every valid \
@@ -536,6 +594,7 @@ pub fn run(ctx: &Ctx) {
     ctx.assume("f32 -> fixed conversions: expected value is v * 2^n rounded half away from zero (the OpenType text: fraction rounded, integer part in the high word)");
     run_normalize(ctx);
     run_conversions(ctx);
+    run_unparsable_avar(ctx);
     ctx.set("bounds", json!({"avar_interior_knots": if ctx.tier.thorough() {3} else {2}, "axes_per_font": "1 (plus 2- and 3-axis tuple-length and independence cases)"}));
 }
 
